@@ -387,9 +387,9 @@ pub fn check_taskset(
             // trace search can cost millions of states in an overloaded system); further
             // violating systems are counted under the same key.
             if TRACED.fetch_add(1, std::sync::atomic::Ordering::Relaxed) >= MAX_TRACED {
-                if want.safety {
+                if want.safety || want.tightness {
                     found.push(Found {
-                        key: format!("{}#bound-exceeded", ana_key(ana)),
+                        key: format!("{}#{}", ana_key(ana), if want.safety { "bound-exceeded" } else { "below-the-worst-case" }),
                         what: format!(
                             "{}: Ok({}) for task {} but the model reaches a state in which a job of it has been pending for {} ticks (not individually traced); tasks {:?}",
                             ana.name(), b[task].unwrap_or(0), task, age, ts
@@ -419,7 +419,9 @@ pub fn check_taskset(
                 machinery_error(&format!("trace checker does not reproduce the violating response time: bound {} task {} worst {} report {:?} ticks {:?} tasks {:?}", bound, task, rep.worst(task), rep, ticks, ts));
             }
             acc.traces_validated += 1;
-            if want.safety {
+            // (for the tightness property a bound BELOW the worst case of the model is just as
+            // much "not equal to the exact worst case" as one above it)
+            if want.safety || want.tightness {
                 let r = UniReplay {
                     ana,
                     params: ts.to_vec(),
@@ -431,7 +433,7 @@ pub fn check_taskset(
                     observed: rep.worst(task),
                 };
                 found.push(Found {
-                    key: format!("{}#bound-exceeded", ana_key(ana)),
+                    key: format!("{}#{}", ana_key(ana), if want.safety { "bound-exceeded" } else { "below-the-worst-case" }),
                     what: format!(
                         "{}: Ok({}) for task {} but a legal schedule keeps a job pending for {} (age {} reached); tasks {:?}",
                         ana.name(), bound, task, rep.worst(task), age, ts
